@@ -274,6 +274,8 @@ func gtExprText(e ast.Expr) string {
 		return "*" + gtExprText(x.X)
 	case *ast.CallExpr:
 		return gtExprText(x.Fun) + "(...)"
+	case *ast.ArrayType, *ast.MapType:
+		return typeText(e)
 	case nil:
 		return "<nil>"
 	}
